@@ -99,6 +99,8 @@ def run_mapping(case, ctx):
     base = codec.dec(case['d'])
     d = cls(base)
     s0 = snap(dict(d))
+    from .C15 import idsnap as _idsnap, idsnap_same as _idsnap_same
+    s0deep = _idsnap(d)
     op = case['op']
     sel = case.get('sel')
     keys = list(base)
@@ -199,9 +201,20 @@ def run_mapping(case, ctx):
             f = lambda: d.relabel(case['arg'])
         elif how == 'upper':
             f = lambda: d.relabel(lambda s: s.upper())
+        elif how == 'dict_kw':
+            ks_ = list(mp)
+            m1 = {k: mp[k] for k in ks_[:len(ks_) // 2]}
+            m1_before = dict(m1)
+            f = lambda: d.relabel(m1, **{k: mp[k] for k in ks_[len(ks_) // 2:]})
         else:
             f = lambda: d.relabel(dict(mp))
         st, res = ctx.call(f)
+        if how == 'dict_kw':
+            # the rename mapping belongs to the caller: unchanged, and usable again on its own
+            st1, r1 = ctx.call(lambda: d.relabel(m1))
+            exp1 = {m1_before.get(k, k): v for k, v in base.items()}
+            ctx.check('mapping_unchanged', m1 == m1_before, lambda: 'relabel(mapping, **kw) edited the mapping it was given: %r -> %r' % (m1_before, m1))
+            ctx.check('mapping_model', st1 == 'ok' and list(r1.keys()) == list(exp1.keys()), lambda: 'relabel(%r) after relabel(mapping, **kw) = %s %r, model %r' % (m1_before, st1, r1, exp1))
         exp = {mp.get(k, k): v for k, v in base.items()}
         if st == 'ok' and chk(res, exp, 'relabel'):
             res['__new__'] = 1
@@ -218,7 +231,7 @@ def run_mapping(case, ctx):
         ctx.check('mapping_model', type(ks) is ulist and list(ks) == keys, lambda: 'keys() = %r' % (ks,))
     else:
         raise HarnessError(op)
-    ctx.check('mapping_unchanged', snap_same(snap(dict(d)), s0) and type(d) is cls, lambda: 'd changed by %s: %r -> %r' % (op, base, dict(d)))
+    ctx.check('mapping_unchanged', snap_same(snap(dict(d)), s0) and type(d) is cls and _idsnap_same(_idsnap(d), s0deep), lambda: 'd changed by %s (at some depth): %r -> %r' % (op, base, dict(d)))
     if sel and any(k in base for k in sel) and any(k not in base for k in sel):
         ctx.mark_nontrivial(case)
     elif op in ('add', 'or') and set(case['o']) & set(base) and set(case['o']) - set(base):
@@ -226,9 +239,12 @@ def run_mapping(case, ctx):
     ctx.cls('map:%s:%s' % (case['cls'], op))
 
 
-def mk_fn(key, deps, log):
-    """generated function: parameters are the dependency names; logs (key, args); value encodes its arguments"""
-    src = 'lambda %s: _rec(%r, (%s))' % (', '.join(deps), key, ''.join(d + ', ' for d in deps))
+def mk_fn(key, deps, log, kwonly=0, dflt=False):
+    """generated function: parameters are the dependency names (the last `kwonly` of them keyword-only, optionally with a default the mapping overrides);
+    logs (key, args); value encodes its arguments"""
+    npos = len(deps) - min(kwonly, len(deps))
+    params = list(deps[:npos]) + (['*'] + [('%s="DEFAULT"' % d_) if dflt else d_ for d_ in deps[npos:]] if npos < len(deps) else [])
+    src = 'lambda %s: _rec(%r, (%s))' % (', '.join(params), key, ''.join(d + ', ' for d in deps))
 
     def _rec(k, args):
         log.append((k, args))
@@ -248,7 +264,8 @@ def run_call(case, ctx):
     log = []
     kwargs = {}
     for k in order:
-        kwargs[k] = plain[k] if k in plain else mk_fn(k, graph[k], log)
+        kwo = (case.get('kwonly') or {}).get(k, 0)
+        kwargs[k] = plain[k] if k in plain else mk_fn(k, graph[k], log, kwonly=abs(kwo), dflt=kwo < 0)
     # model: topological evaluation
     env = dict(base); env.update(plain)
     derived = set(graph)
@@ -322,6 +339,11 @@ def gen_map(rng):
             sel = []
         if op in ('getlist', 'gettuple') and not sel:
             sel = (ks or absent)[:1]
+        if op in ('sub', 'and') and ks and rng.random() < 0.15:
+            # a key that is absent but reads like a path into a nested value of d
+            k0 = rng.choice(ks)
+            d[k0] = {'b': 1, 'c': {'x': 2}}
+            sel = sel + [k0 + '.b'] if rng.random() < 0.6 else [k0 + '.b']
         case['sel'] = sel
         case['single'] = len(sel) == 1 and rng.random() < 0.5
         if op in ('getlist', 'gettuple') and len(sel) == 1 and op == 'gettuple':
@@ -332,9 +354,9 @@ def gen_map(rng):
         case['oplain'] = rng.random() < 0.6
         case['ocls'] = rng.choice(['dictattr', 'Dict'])
     elif op == 'relabel':
-        how = rng.choice(['kw', 'rename', 'dict', 'prefix', 'suffix', 'upper'])
+        how = rng.choice(['kw', 'rename', 'dict', 'prefix', 'suffix', 'upper', 'dict_kw'])
         case['how'] = how
-        if how in ('kw', 'rename', 'dict'):
+        if how in ('kw', 'rename', 'dict', 'dict_kw'):
             if len(ks) >= 2 and rng.random() < 0.35:
                 # a permutation of existing names (swap / rotation) or a shift onto a name that is itself renamed away
                 sel = rng.sample(ks, rng.randint(2, min(3, len(ks))))
@@ -418,11 +440,19 @@ def run(spec, ctx):
         allp = list(itertools.islice(perms, 5040))
         if len(allp) > cap:
             allp = rng.sample(allp, cap)
+        kwonly = {}
+        if rng.random() < 0.4:
+            # some functions take (some of) their arguments as keyword-only parameters; negative = with a default that the mapping's value replaces
+            for k_, deps_ in graph.items():
+                if deps_ and rng.random() < 0.5:
+                    kwonly[k_] = rng.randint(1, len(deps_)) * rng.choice([1, 1, -1])
         ctx.cls('call:graphs')
         if len(allp) == len(list(itertools.islice(itertools.permutations(names), 5041))):
             ctx.cls('call:graphs_all_orders')
         for order in allp:
             case = {'kind': 'call', 'base': base, 'graph': graph, 'plain': plain, 'order': list(order), 'cls': rng.choice(['Dict', 'Dict', 'MyDict'])}
+            if kwonly:
+                case['kwonly'] = kwonly
             ctx.case(case)
             ctx.run_case(case, run_case)
             if ctx.full():
